@@ -201,6 +201,20 @@ func ExtraValues() []types.XValue {
 		types.JSONToXValue([]byte(`{"a":1,"b":[1,2,3],"c":{"d":"e"}}`)),
 		types.JSONToXValue([]byte(`[1,"x",null,[2],{"k":"v"}]`)),
 		types.NewXLazyArray(func() []types.XValue { return []types.XValue{types.NewXText("lazy")} }),
+		// arrays whose items are all of one type (sort, min/max-like functions compare neighbours), with and without nils
+		types.NewXArray(types.XBooleanTrue, types.XBooleanFalse, types.XBooleanTrue),
+		types.NewXArray(types.NewXDate(dates.NewDate(2020, 2, 29)), types.NewXDate(dates.NewDate(1, 1, 1)), types.NewXDate(dates.NewDate(9999, 12, 31))),
+		types.NewXArray(types.NewXDateTime(time.Date(2020, 2, 29, 12, 0, 0, 0, time.UTC)), types.NewXDateTime(time.Date(2020, 2, 29, 7, 0, 0, 0, time.FixedZone("", -5*3600))), types.NewXDateTime(time.Date(1, 1, 1, 0, 0, 0, 0, time.UTC))),
+		types.NewXArray(types.NewXTime(dates.NewTimeOfDay(23, 59, 59, 999999999)), types.NewXTime(dates.NewTimeOfDay(0, 0, 0, 0)), types.NewXTime(dates.NewTimeOfDay(12, 0, 0, 0))),
+		types.NewXArray(dec("3"), dec("-1"), dec("1e30"), dec("3.0")),
+		types.NewXArray(types.NewXText("b"), types.NewXText("B"), types.NewXText(""), types.NewXText("é")),
+		types.NewXArray(nil, nil),
+		types.NewXArray(nil, dec("1"), nil),
+		types.NewXArray(dec("1"), nil, dec("0")),
+		types.NewXArray(types.NewXArray(dec("2")), types.NewXArray(dec("1"))),
+		types.NewXArray(types.NewXObject(map[string]types.XValue{"a": dec("2")}), types.NewXObject(map[string]types.XValue{"a": dec("1")})),
+		types.NewXArray(types.NewXErrorf("boom"), types.NewXErrorf("bang")),
+		types.NewXArray(functions.XFUNCTIONS["upper"], functions.XFUNCTIONS["lower"]),
 		types.NewXObject(map[string]types.XValue{"uuid": types.NewXText("b7cf0d83-f1c9-411c-96fd-c511a4cfa86d"), "name": types.NewXText("Testers")}),
 		types.NewXArray(types.NewXObject(map[string]types.XValue{"uuid": types.NewXText("b7cf0d83-f1c9-411c-96fd-c511a4cfa86d"), "name": types.NewXText("Testers")})),
 	}
